@@ -226,6 +226,15 @@ def reblock(src, out, history=None):
             elif history == 'export':
                 quiet(c.convert_to_segy, out + '.sgy')
                 os.remove(out + '.sgy')
+            elif history == 'header-then-grid':
+                # every array loaded unpadded, then ONE array re-loaded padded: the memo must not be left half in each mode
+                c.gen_trace_header(c.tracecount - 1)
+                if c.stored_header_keys:
+                    c.get_tracefield_values(c.stored_header_keys[len(c.stored_header_keys) // 2])
+            elif history == 'grid-then-header':
+                if c.stored_header_keys:
+                    c.get_tracefield_values(c.stored_header_keys[0])
+                c.gen_trace_header(0)
             c.loader.clear_cache()
             f.log.clear()
             try:
@@ -418,7 +427,7 @@ for case_no, case in enumerate(cases):
         R.notes.append(f'source {inp} is not a 2-bit default-layout 3D file: skipped')
         continue
     n_il_, n_xl_, ns_ = case['shape']
-    history = [None, None, 'query-last', 'gen-header', 'export'][case_no % 5]
+    history = [None, 'header-then-grid', 'query-last', 'gen-header', 'export', None, 'grid-then-header'][case_no % 7]
     if history == 'export' and n_il_ * n_xl_ * ns_ > 60000:
         history = 'query-last'
     if history:
